@@ -39,7 +39,10 @@ CONSTANTS Ns,       \* sizes of the handle table (cfg.n)
 ASSUME 0 \notin Vals
 AllOps == {"PushFront", "PushBack", "InsertBefore", "InsertAfter", "Remove", "MoveToFront", "MoveToBack",
            "MoveBefore", "MoveAfter", "PushBackList", "PushFrontList", "Init", "ForEach", "ForEachReverse"}
-ASSUME Ops \subseteq AllOps
+\* RangeMut: an iteration whose callback removes an element of the list at its k-th call (lock-free flavours only: the
+\* thread-safe flavour holds its lock while it iterates)
+MutOps == {"RangeMut"}
+ASSUME Ops \subseteq AllOps \cup MutOps
 
 VARIABLES cfg, hp, stale, taint, ev
 vars == <<cfg, hp, stale, taint, ev>>
@@ -116,6 +119,16 @@ Walk(h, e, fwd, fuel) ==
   IF e = 0 THEN <<>>
   ELSE IF fuel = 0 THEN <<-9>>
   ELSE <<ValOf(h, e)>> \o Walk(h, IF fwd THEN NextOf(h, e) ELSE PrevOf(h, e), fwd, fuel - 1)
+\* the same loop with a callback that, at its k-th call, removes element s.h from list s.l: the iteration goes on from what
+\* e.Next() / e.Prev() says AFTER the callback returned (a removed element has no neighbours: removing the visited element ends
+\* the iteration, removing the next one skips it)
+RECURSIVE WalkM(_, _, _, _, _, _)
+WalkM(h, e, fwd, fuel, cnt, s) ==
+  IF e = 0 THEN [vis |-> <<>>, h |-> h]
+  ELSE IF fuel = 0 THEN [vis |-> <<-9>>, h |-> h]
+  ELSE LET h1 == IF cnt = s.k /\ h.o[s.h] = s.l THEN Unlink(h, s.l, s.h) ELSE h
+           r  == WalkM(h1, IF fwd THEN NextOf(h1, e) ELSE PrevOf(h1, e), fwd, fuel - 1, cnt + 1, s)
+       IN  [vis |-> <<ValOf(h, e)>> \o r.vis, h |-> r.h]
 Fuel == cfg.n + 2
 Fwd(h, L) == Walk(h, FrontOf(h, L), TRUE, Fuel)
 Bwd(h, L) == Walk(h, BackOf(h, L), FALSE, Fuel)
@@ -201,6 +214,9 @@ Do(s) ==
     [] s.op \in {"ForEach", "ForEachReverse"} ->   \* the callback fails at its k-th call
          LET w == IF s.op = "ForEach" THEN Fwd(hp, s.l) ELSE Bwd(hp, s.l)
          IN Out(s, hp, IF Len(w) >= s.k THEN "err" ELSE "ok", Take(w, s.k), stale, taint)
+    [] s.op = "RangeMut" ->
+         LET r == WalkM(hp, IF s.fwd THEN FrontOf(hp, s.l) ELSE BackOf(hp, s.l), s.fwd, cfg.n + 2, 1, s)
+         IN Out(s, r.h, "ok", r.vis, stale, taint)
     [] s.op = "Forget" ->
          LET g == ForgetGroup(s.h)
          IN Out(s, [hp EXCEPT !.n = [c \in DOMAIN hp.n |-> IF c \in g THEN 0 ELSE hp.n[c]],
@@ -219,6 +235,7 @@ Stimuli ==
   \cup [op : {"PushBackList", "PushFrontList"}, l : Lists, o : Lists]
   \cup [op : {"Init"}, l : Lists]
   \cup [op : {"ForEach", "ForEachReverse"}, l : Lists, k : 1..2]
+  \cup [op : {"RangeMut"}, l : Lists, fwd : BOOLEAN, k : 1..2, h : Hs]
   \cup (IF Recycle THEN [op : {"Forget"}, h : Hs] ELSE {})
 
 Need(s) == CASE s.op \in {"PushFront", "PushBack"} -> 1
@@ -231,6 +248,7 @@ Enabled(s) ==
   /\ Need(s) <= Cardinality(Free(hp))                  \* enough handle ids left
   /\ (s.op \in {"PushBackList", "PushFrontList"} => {s.l, s.o} \cap taint = {})
   /\ (s.op = "Forget" => ForgetGroup(s.h) # {})
+  /\ (s.op = "RangeMut" => s.h \notin stale /\ hp.o[s.h] = s.l /\ taint = {})
   /\ (Deep \/ taint = {})
 
 Next == \E s \in Stimuli : Enabled(s) /\ Do(s)
